@@ -135,6 +135,9 @@ func randFrameSpec(rng *rand.Rand, boundPort int, boundIP net.IP) frameSpec {
 		fs.pad = 1 + rng.Intn(20)
 	case 2:
 		fs.tlDelta = -pick(rng, 1, 7, 8, 9, len(fs.payload), len(fs.payload)+1, len(fs.payload)+8, len(fs.payload)+9)
+		if rng.Intn(2) == 0 { // total length fields of 0, 1, 19, 20, 27, 28: the smallest values, whatever the frame holds
+			fs.tlDelta = pick(rng, 0, 0, 1, 19, 20, 27, 28) - (20 + 8 + len(fs.payload))
+		}
 	case 3:
 		fs.tlDelta = 1 + rng.Intn(40)
 	case 4:
@@ -170,9 +173,35 @@ func genC18(o *Out, rng *rand.Rand, tier string) {
 		nW, nR = 30000, 60000
 	}
 	// ---- write direction
+	nwrite := 0
 	writeOne := func(payload []byte, bound *net.UDPAddr, dst *net.UDPAddr, cls string) {
 		sc := &scriptConn{}
 		c := nclient4.NewBroadcastUDPConn(sc, bound)
+		nwrite++
+		if nwrite%3 == 0 {
+			// the connection has a past: it has received frames (addressed to a unicast address, to broadcast, from various
+			// senders) before it is written to - what it writes is a function of this call's arguments and the bound address
+			for k := 1 + rng.Intn(3); k > 0; k-- {
+				fs := frameSpec{version: 4, ihl: 5, proto: 17, src: net.IP(randBytes(rng, 4)), dst: net.IPv4(10, 9, byte(rng.Intn(256)), byte(1+rng.Intn(250))).To4(),
+					sport: 67, dport: bound.Port, payload: randBytes(rng, 10+rng.Intn(40)), cut: -1}
+				if bound.IP != nil && !bound.IP.IsUnspecified() && rng.Intn(2) == 0 {
+					fs.dst = bound.IP.To4()
+				}
+				if fs.dst == nil {
+					fs.dst = net.IPv4bcast.To4()
+				}
+				sc.frames = append(sc.frames, fs.build(rng))
+			}
+			func() {
+				defer func() { recover() }()
+				for {
+					if _, _, err := c.ReadFrom(make([]byte, 1500)); err != nil {
+						break
+					}
+				}
+			}()
+			sc.sent = nil
+		}
 		rec := map[string]any{"op": "W", "payload": B(payload), "src": endpoint(bound.IP, bound.Port), "dst": endpoint(dst.IP, dst.Port)}
 		func() {
 			defer func() {
